@@ -105,7 +105,7 @@ def short_case(line):
             "out": seg(line, "out"), "uni_returned": seg(line, "uni"), "nops": seg(line, "nops")}
 
 
-def run_property(pid, tier, seed, props, rule, nontrivial, classify=None, trusted=None):
+def run_property(pid, tier, seed, props, rule, nontrivial, classify=None, trusted=None, stages=None):
     """`classify(line, parsed, mine)` -> stable key (or None) for known-findings matching."""
     run = vlib.Run(pid, tier, seed, "proof")
     cov = run.coverage
@@ -190,6 +190,18 @@ def run_property(pid, tier, seed, props, rule, nontrivial, classify=None, truste
         else:
             new.append((line, why, k))
     cov["failure_keys"] = keyhist
+    # stage correspondence of the magnetic stage models (checks/stages_mag.py), as `stages=` of checks/pipe.py
+    stage_bad = []
+    if stages:
+        from checks import stages_mag
+        try:
+            nst, stage_bad, sstats = stages_mag.run_stages(stages, tier, seed, key)
+            cov["stage_cases_compared"] = nst
+            cov["stage_model_impl_disagreements"] = len(stage_bad)
+            cov["stages"] = stages
+            cov["stage_stats"] = sstats
+        except RuntimeError as e:
+            stage_bad = [("mag-stage-gen", str(e))]
     if new:
         line, why, k = new[0]
         tag = line.split(" ")[1]
@@ -199,9 +211,15 @@ def run_property(pid, tier, seed, props, rule, nontrivial, classify=None, truste
             "summary": short_case(line),
             "others": [{"tag": l.split(' ')[1], "key": kk, "clauses": w[:300]} for l, w, kk in new[1:40]],
             "case": line})
-    elif ob["failures"]:
-        run.violation("unchecked.txt", "proof obligations that no longer check:\n" + "\n".join("  " + f for f in ob["failures"]) +
-                      f"\nthe Lean oracles hold on all {len(reqs)} explored magnetic datasets (seed {seed})", no_input=True)
+    elif ob["failures"] or stage_bad:
+        txt = ""
+        if ob["failures"]:
+            txt += "proof obligations that no longer check:\n" + "\n".join("  " + f for f in ob["failures"]) + "\n"
+        if stage_bad:
+            txt += f"stage correspondence (model vs implementation) broken on {len(stage_bad)} magnetic stage cases; first:\n"
+            for q, m in stage_bad[:5]:
+                txt += f"  {q[:300]}\n    -> {m}\n"
+        run.violation("unchecked.txt", txt + f"the Lean oracles hold on all {len(reqs)} explored magnetic datasets (seed {seed})", no_input=True)
     return run.finish()
 
 
